@@ -294,3 +294,30 @@ func (e *Engine) putSearchState(state *SearchState) {
 	// Local slot occupied (concurrent goroutine), fall back to pool.
 	e.statePool.put(state)
 }
+
+// pikevmSearchAt runs a PikeVM search on a pooled SearchState.
+// The engine-level e.pikevm is ONE instance whose scratch (thread queues, sparse set)
+// is rewritten by every search, so search paths must never use it: a compiled Engine
+// is shared by all goroutines. Zero-alloc: the pooled PikeVM is reused.
+func (e *Engine) pikevmSearchAt(haystack []byte, at int) (int, int, bool) {
+	state := e.getSearchState()
+	start, end, found := state.pikevm.SearchAt(haystack, at)
+	e.putSearchState(state)
+	return start, end, found
+}
+
+// pikevmSearchWithSlotTableAt is pikevmSearchAt for the SlotTable-based Find search.
+func (e *Engine) pikevmSearchWithSlotTableAt(haystack []byte, at int) (int, int, bool) {
+	state := e.getSearchState()
+	start, end, found := state.pikevm.SearchWithSlotTableAt(haystack, at, nfa.SearchModeFind)
+	e.putSearchState(state)
+	return start, end, found
+}
+
+// pikevmIsMatch is pikevmSearchAt for boolean matching.
+func (e *Engine) pikevmIsMatch(haystack []byte) bool {
+	state := e.getSearchState()
+	matched := state.pikevm.IsMatch(haystack)
+	e.putSearchState(state)
+	return matched
+}
